@@ -10,7 +10,7 @@ use crate::current::CurrentFileStates;
 use crate::history::{History, RuleHistory};
 use crate::ticket::{Ticket, TicketFactory};
 use super::super::simsys::{World, SimSystem};
-use super::super::scen::RULER_DIR;
+use super::super::scen::ruler_dir;
 
 const HDIR : &str = "hist";
 const TABLE : &str = "table";
@@ -25,7 +25,7 @@ fn world(read_chunk : usize, write_chunk : usize) -> World
     let mut k = Knobs::default();
     k.read_chunk = read_chunk;
     k.write_chunk = write_chunk;
-    let w = World::new(k, RULER_DIR);
+    let w = World::new(k, &ruler_dir());
     w.user_mkdir(HDIR);
     w
 }
